@@ -37,6 +37,9 @@ func checkC13(c *Ctx) {
 		c.Undecided("C13-R1", "package tcell", "-", "not loaded")
 		return
 	}
+	c.Rule("C13-R11", "the cell buffer keeps its own copy of the combining runes: the comparison of what is shown with what is current cannot be changed by the caller reusing its slice (an unchanged cell would be repainted)")
+	c.Expect("C13-R11", 1)
+	c.asRule("C08-R4", "C13-R11", func() { c08Alias(c, p, cbMethods(p)) })
 	c.Rule("C13-R10", "a cell marked dirty (marker rune zero: SetDirty(true), Invalidate, UnlockCell) is reported dirty whatever it holds, also one nothing was ever stored in; combining runes are compared in full")
 	c.Expect("C13-R10", 2)
 	c.asRule("C08-R9", "C13-R10", func() { checkDirtyDecisions(c, p, "C08-R9") })
